@@ -631,11 +631,34 @@ func mentionsLen(v ssa.Value, d int) bool {
 	case *ssa.Convert:
 		return mentionsLen(x.X, d+1)
 	case *ssa.Phi:
-		for _, e := range x.Edges {
-			if mentionsLen(e, d+1) {
-				return true
+		// tied to existing data only if it is on every way in: `if stop < 0 { stop += len }`
+		// leaves a non-negative client value as it came
+		for i, e := range x.Edges {
+			if e == ssa.Value(x) || mentionsLen(e, d+1) {
+				continue
+			}
+			// the value comes as it is, but only where a test has bounded it by a length:
+			// `if len(s)-1 < stop { stop = len(s)-1 }` leaves stop <= len(s)-1 on the other edge
+			pred := x.Block().Preds[i]
+			fs := append(append([]Atom{}, factsAt(pred)...), edgeFacts(pred, succIndex(pred, x.Block()))...)
+			bounded := false
+			for _, at := range fs {
+				if at.Kind != "lt" && at.Kind != "le" {
+					continue
+				}
+				small, big := at.X, at.Y
+				if !at.Pos {
+					small, big = at.Y, at.X
+				}
+				if strip(small) == strip(e) && mentionsLen(big, d+1) {
+					bounded = true
+				}
+			}
+			if !bounded {
+				return false
 			}
 		}
+		return len(x.Edges) > 0
 	}
 	return false
 }
